@@ -280,13 +280,14 @@ def _shard_job(modname, subname, tier, shard, nshards, seed, budget_s):
 
 
 def _opt_shard_job(modname, subname, tier, shard, nshards, seed, budget_s):
-    """One more shard of the sub-check, executed by `python -O` (asserts stripped, __debug__ False): the property is
-    not allowed to depend on the interpreter's optimisation switch.  Runs in a worker; returns a result dict."""
+    """One more shard of the sub-check, executed by `python -O` (asserts stripped, __debug__ False) and with the
+    guard of the repository's verification hooks off (CNFGEN_VERIF=0): the property is not allowed to depend on the
+    interpreter's optimisation switch, nor on the instrumentation.  Runs in a worker; returns a result dict."""
     import subprocess
     code = ("import sys, json; from vlib.core import _shard_job; a = json.load(sys.stdin); r = _shard_job(*a); "
             "sys.stdout.write('\\n@@RESULT@@' + json.dumps(r, default=str))")
     args = [modname, subname, tier, shard, nshards, seed, budget_s]
-    env = dict(os.environ, VERIF_OPT_PASS='child')
+    env = dict(os.environ, VERIF_OPT_PASS='child', CNFGEN_VERIF='0')      # and with the repository's hooks switched off
     env.pop('PYTHONOPTIMIZE', None)
     try:
         p = subprocess.run([sys.executable, '-O', '-c', code], input=json.dumps(args), text=True, env=env,
@@ -385,7 +386,7 @@ def run_replay_file(mod, path):
         code = ("import sys, json, importlib; from vlib import core; mod = importlib.import_module(sys.argv[1]); "
                 "m = core.run_replay_file(mod, sys.argv[2]); sys.stdout.write('\\n@@RESULT@@' + json.dumps(m))")
         p = subprocess.run([sys.executable, '-O', '-c', code, mod.__name__, path], text=True, cwd=VERIF_DIR,
-                           stdout=subprocess.PIPE, stderr=subprocess.PIPE, timeout=1800)
+                           env=dict(os.environ, CNFGEN_VERIF='0', VERIF_OPT_PASS='child'), stdout=subprocess.PIPE, stderr=subprocess.PIPE, timeout=1800)
         if '@@RESULT@@' not in p.stdout:
             raise RuntimeError("replay under python -O failed: " + p.stderr[-1500:])
         return json.loads(p.stdout.split('@@RESULT@@', 1)[1])
